@@ -7,6 +7,7 @@ import (
 	"fmt"
 	"math"
 	"reflect"
+	"sort"
 	"strconv"
 
 	"github.com/smarthome-go/homescript/v3/homescript/analyzer/ast"
@@ -207,25 +208,9 @@ func findJsonUnencodable(self Value) (Value, bool) {
 	case ValueString, ValueInt, ValueFloat, ValueBool, ValueBuiltinFunction, ValueNull, nil:
 		return nil, false
 	case ValueAnyObject:
-		for _, field := range self.FieldsInternal {
-			if field == nil {
-				continue
-			}
-			if culprit, found := findJsonUnencodable(*field); found {
-				return culprit, true
-			}
-		}
-		return nil, false
+		return findJsonUnencodableField(self.FieldsInternal)
 	case ValueObject:
-		for _, field := range self.FieldsInternal {
-			if field == nil {
-				continue
-			}
-			if culprit, found := findJsonUnencodable(*field); found {
-				return culprit, true
-			}
-		}
-		return nil, false
+		return findJsonUnencodableField(self.FieldsInternal)
 	case ValueList:
 		for _, item := range *self.Values {
 			if culprit, found := findJsonUnencodable(*item); found {
@@ -241,6 +226,27 @@ func findJsonUnencodable(self Value) (Value, bool) {
 	default:
 		return self, true
 	}
+}
+
+// The fields are visited in the order of their names, so that the value which is reported does not depend on the
+// iteration order of the map.
+func findJsonUnencodableField(fields map[string]*Value) (Value, bool) {
+	keys := make([]string, 0, len(fields))
+	for key := range fields {
+		keys = append(keys, key)
+	}
+	sort.Strings(keys)
+
+	for _, key := range keys {
+		field := fields[key]
+		if field == nil {
+			continue
+		}
+		if culprit, found := findJsonUnencodable(*field); found {
+			return culprit, true
+		}
+	}
+	return nil, false
 }
 
 func jsonUnencodableInterrupt(self Value, span herrors.Span) *VmInterrupt {
